@@ -1,4 +1,5 @@
 import RsslVerif.Model.GenHlsl
+import RsslVerif.Model.Ieee
 import RsslVerif.Spec.SemWT
 import RsslVerif.Driver.Util
 /-!
@@ -300,18 +301,21 @@ def fcode : MBin → Nat
   | .add => 1 | .sub => 2 | .mul => 3 | .div => 4 | .mod => 5 | _ => 0
 
 def concretePrim : Prim where
+  -- arithmetic: a hash-like function that satisfies no algebraic law (not commutative, no identities, no inverses)
   fbin m x y := (x.rotateLeft 5 ^^^ (y * 0x9E3779B1#32)) + BitVec.ofNat 32 (fcode m)
+  -- comparisons: IEEE-754 (NaN is unordered: `¬(a < b)` is not `a >= b`; `+0 == -0`); see Model/Ieee.lean
   fcmp m x y := match m with
-    | .lt => x.slt y | .le => x.sle y | .gt => y.slt x | .ge => y.sle x
-    | .eq => x == y | .ne => x != y | _ => false
+    | .lt => Ieee.lt x y | .le => Ieee.le x y | .gt => Ieee.lt y x | .ge => Ieee.le y x
+    | .eq => Ieee.eq x y | .ne => !Ieee.eq x y | _ => false
   fneg x := x ^^^ 0x80000000#32
   fstep inc x := if inc then x + 0x00800000#32 else x - 0x00800000#32
   idiv signed x y := if y == 0 then 0xFFFFFFFF#32 else if signed then x.sdiv y else x / y
   imod signed x y := if y == 0 then x else if signed then x.srem y else x % y
-  i2f x := (x * 3#32) ^^^ 0x4B000000#32
-  u2f x := (x * 5#32) ^^^ 0x4F000000#32
-  f2i x := (x ^^^ 0x4B000000#32) * 0xAAAAAAAB#32
-  f2u x := (x ^^^ 0x4F000000#32) * 0xCCCCCCCD#32
+  -- conversions: the real ones (round to nearest even; toward zero, NaN ↦ 0, saturating)
+  i2f x := Ieee.i2f x
+  u2f x := Ieee.u2f x
+  f2i x := Ieee.f2i x
+  f2u x := Ieee.f2u x
   f2b x := (x &&& 0x7FFFFFFF#32) != 0
   d2f d := d.truncate 32 ^^^ (d >>> 32).truncate 32
   intr i t vals :=
